@@ -47,30 +47,38 @@ func ExpandEnv(s string) string {
 	return r
 }
 
+// expandEnvWithCmd expands $(pkg-config ...) / $(llvm-config ...) and
+// $VAR / ${VAR} in one pass: the text between commands is expanded with
+// os.Expand, command output is inserted as is (it is data, not a template).
 func expandEnvWithCmd(s string) (string, bool) {
 	var config bool
-	expanded := reSubcmd.ReplaceAllStringFunc(s, func(m string) string {
-		subcmd := strings.TrimSpace(m[2 : len(m)-1])
-		args := parseSubcmd(subcmd)
-		cmd := args[0]
-		if cmd != "pkg-config" && cmd != "llvm-config" {
-			fmt.Fprintf(os.Stderr, "expand cmd only support pkg-config and llvm-config: '%s'\n", subcmd)
-			return ""
-		}
-		config = true
+	var sb strings.Builder
+	last := 0
+	for _, loc := range reSubcmd.FindAllStringIndex(s, -1) {
+		sb.WriteString(os.Expand(s[last:loc[0]], os.Getenv))
+		sb.WriteString(runSubcmd(s[loc[0]:loc[1]], &config))
+		last = loc[1]
+	}
+	sb.WriteString(os.Expand(s[last:], os.Getenv))
+	return strings.TrimSpace(sb.String()), config
+}
 
-		var out []byte
-		var err error
-		out, err = exec.Command(cmd, args[1:]...).Output()
+func runSubcmd(m string, config *bool) string {
+	subcmd := strings.TrimSpace(m[2 : len(m)-1])
+	args := parseSubcmd(subcmd)
+	cmd := args[0]
+	if cmd != "pkg-config" && cmd != "llvm-config" {
+		fmt.Fprintf(os.Stderr, "expand cmd only support pkg-config and llvm-config: '%s'\n", subcmd)
+		return ""
+	}
+	*config = true
 
-		if err != nil {
-			// TODO(kindy): log in verbose mode
-			return ""
-		}
-
-		return strings.Replace(strings.TrimSpace(string(out)), "\n", " ", -1)
-	})
-	return strings.TrimSpace(os.Expand(expanded, os.Getenv)), config
+	out, err := exec.Command(cmd, args[1:]...).Output()
+	if err != nil {
+		// TODO(kindy): log in verbose mode
+		return ""
+	}
+	return strings.Replace(strings.TrimSpace(string(out)), "\n", " ", -1)
 }
 
 func parseSubcmd(s string) []string {
